@@ -107,14 +107,14 @@ Section Explicit.
     assert (He' : ends_bs s = true -> rest = []).
     { intros H. apply He. destruct s; [discriminate | exact H]. }
     rewrite esc_cons. destruct (c =? d) eqn:E.
-    - simpl app. rewrite infixb3_cons. rewrite Ebs, andb_false_l, andb_false_r. simpl orb.
-      rewrite infixb3_cons, Ebs. simpl. apply IH; assumption.
+    - simpl app. rewrite infixb3_cons. rewrite Ebs, andb_false_l, andb_false_r, orb_false_l.
+      rewrite infixb3_cons, Ebs, andb_false_l, orb_false_l. apply IH; assumption.
     - simpl app. rewrite infixb3_cons, (IH rest Hi2 He').
       destruct (BS =? c) eqn:Ec; [|reflexivity]. apply N.eqb_eq in Ec. subst c.
-      rewrite N.eqb_refl in Hi1. simpl in Hi1.
+      rewrite andb_true_l in Hi1. rewrite andb_true_l.
       destruct s as [|x s'].
       + rewrite (He eq_refl). reflexivity.
-      + rewrite esc_cons. rewrite (N.eqb_sym x d), Hi1. simpl app.
+      + rewrite esc_cons. rewrite (N.eqb_sym x d), Hi1. simpl app. cbv iota.
         destruct (BS =? x) eqn:Ex; [|reflexivity]. apply N.eqb_eq in Ex. subst x.
         destruct s' as [|y s''].
         * rewrite (He eq_refl). reflexivity.
@@ -128,22 +128,23 @@ Section Explicit.
     - change (nonlast_ok (k :: k2 :: r')) with (negb (ends_bs k) && nonlast_ok (k2 :: r')) in Hn.
       apply andb_true_iff in Hn as [Hn1 Hn2]. apply negb_true_iff in Hn1.
       rewrite join_cons2. rewrite no_bsbsd_esc by (auto; rewrite Hn1; discriminate).
-      rewrite infixb3_cons, Ebs. simpl. apply IH; assumption.
+      rewrite infixb3_cons, Ebs, andb_false_l, orb_false_l. apply IH; assumption.
   Qed.
 
   (* no "\r" in the name *)
   Lemma memc_cr_esc : forall s, memc CR s = false -> memc CR (esc d s) = false.
   Proof.
     induction s as [|c s IH]; intros H; [reflexivity|]. apply memc_cons_false in H as [H1 H2].
-    rewrite esc_cons, memc_app, (IH H2), orb_false_r. destruct (c =? d); unfold memc; simpl.
-    - unfold CR, BS in *. rewrite Ecd. reflexivity.
-    - rewrite N.eqb_sym, H1. reflexivity.
+    rewrite esc_cons, memc_app, (IH H2), orb_false_r. destruct (c =? d); unfold memc; cbn [existsb].
+    - rewrite Ecd. reflexivity.
+    - rewrite (N.eqb_sym CR c), H1. reflexivity.
   Qed.
   Lemma memc_cr_join : forall ks, Forall (fun s => memc CR s = false) ks -> memc CR (join d (map (esc d) ks)) = false.
   Proof.
     induction ks as [|k r IH]; intros Hf; [reflexivity|]. inversion Hf; subst. destruct r as [|k2 r'].
     - simpl. apply memc_cr_esc; assumption.
-    - rewrite join_cons2, memc_app, (memc_cr_esc k H1). unfold memc at 1. simpl existsb. fold (memc CR (join d (map (esc d) (k2 :: r')))).
+    - rewrite join_cons2, memc_app, (memc_cr_esc k H1), orb_false_l.
+      change (memc CR (d :: join d (map (esc d) (k2 :: r')))) with ((CR =? d) || memc CR (join d (map (esc d) (k2 :: r')))).
       rewrite Ecd, (IH H2). reflexivity.
   Qed.
 
